@@ -5,6 +5,7 @@ CONSTANTS
   MaxMsgs = 2
   LenMode = "bytes"
   IdDecode = "unquote"
+  NullResult = "ok"
   Variants <- VariantsDef
   ChunkMax = 2
   AllCuts = TRUE
